@@ -463,4 +463,35 @@ def legacyNeedsClientCancel (md5 : Str → Str) (req : Str) (loc : LegacyLocal)
       (match legacyFanOut md5 req order with | .ok _ => false | .error _ => true)
   | _ => false
 
+/-! ## the legacy by-UUID delegate fetchRemoteCollectionByUUID (fed_collections.go:157-184) -/
+
+inductive LegacyUFetch where
+  | unhandled                      -- the delegate declines (not GET, no uuid, own cluster's uuid)
+  | ok (mt : Str)                  -- the remote's 200 record, accepted by rewriteSignatures
+  | status (code : Nat)            -- the remote's non-200 answer, forwarded verbatim
+  | error (code : Nat)
+deriving DecidableEq, Repr
+
+/-- `uuid` is what `collectionsRe` captured: empty or a 27-character collection UUID. `peer` is the
+`RemoteClusters` entry for the UUID's prefix (`none`: no such entry ⇒ HTTPError 404 from
+`remoteClusterRequest`). The 200 record goes through `rewriteSignatures` with the prefix as cluster
+id and **no** expected hash; whatever it refuses becomes 502. -/
+def legacyFetchByUUID (md5 : Str → Str) (clusterID uuid : Str) (isGet : Bool)
+    (peer : Option LegacyLocal) : LegacyUFetch :=
+  if !isGet || uuid.isEmpty then .unhandled
+  else if uuid.take 5 = clusterID then .unhandled
+  else match peer with
+    | none => .error 404
+    | some .hang => .error 502
+    | some (.reply .reqErr) => .error 502
+    | some (.reply (.status c)) => if c = 200 then .error 502 else .status c
+    | some (.reply (.record mt f)) =>
+      match rewriteSignatures md5 (uuid.take 5) [] mt f with
+      | .ok o => .ok o
+      | .error _ => .error 502
+
+/-- the client has to give up iff the delegate waits for a hanging remote -/
+def legacyUNeedsClientCancel (clusterID uuid : Str) (isGet : Bool) (peer : Option LegacyLocal) : Bool :=
+  isGet && !uuid.isEmpty && decide (uuid.take 5 ≠ clusterID) && decide (peer = some .hang)
+
 end ArvVerif.C18
